@@ -1,6 +1,7 @@
 import MdIt.BlockRules
 import MdIt.BlockQuote
 import MdIt.BlockList
+import MdIt.BlockMore
 import MdIt.Drv.Token
 import MdIt.Generated.Tables
 /-! Driver: `miniblock <code><fence><hr><heading> <maxNesting> <src>` — block tokens of the modelled
@@ -37,6 +38,18 @@ def lLine (toks : List String) : String :=
     let b := bits.toList.map (· == '1')
     let cfg : MiniCfg := { code := b.getD 0 false, fence := b.getD 1 false, hr := b.getD 2 false, heading := b.getD 3 false }
     match lParse cfg Gen.pyWhitespace mn.toInt! (decChars src) with
+    | .ok ts => "ok " ++ " ".intercalate (encToks ts)
+    | .error e => "e:" ++ e.tag
+  | _ => "bad-request"
+
+/-- `mblock <code><fence><hr><heading><html_block><lheading><html> <maxNesting> <src>` — nine of the eleven block rules -/
+def mLine (toks : List String) : String :=
+  match toks with
+  | [bits, mn, src] =>
+    let b := bits.toList.map (· == '1')
+    let cfg : MCfg := { code := b.getD 0 false, fence := b.getD 1 false, hr := b.getD 2 false, heading := b.getD 3 false,
+                        htmlBlock := b.getD 4 false, lheading := b.getD 5 false, html := b.getD 6 false }
+    match mParse cfg Gen.pyWhitespace mn.toInt! (decChars src) with
     | .ok ts => "ok " ++ " ".intercalate (encToks ts)
     | .error e => "e:" ++ e.tag
   | _ => "bad-request"
